@@ -176,50 +176,56 @@ func main() {
 		os.Exit(code)
 	}
 
-	var outs []output
-	exhaustive := true
+	// both layouts run concurrently, each harness with NumCPU worker goroutines (a case is one
+	// schema or one query shape; cases are independent); results are merged in layout order
+	outs := make([]output, len(layouts))
+	runErrs := make([]string, len(layouts))
+	share := int((budget - time.Since(start)).Seconds())
+	if share < 5 {
+		share = 5
+	}
+	var rwg sync.WaitGroup
 	for i, l := range layouts {
-		remaining := budget - time.Since(start)
-		// the first layout carries the large grid; keep a reserve for the second one
-		share := int(remaining.Seconds())
-		if i == 0 {
-			if c.Tier == "thorough" {
-				share = share * 7 / 10
-			} else {
-				share -= 20
+		rwg.Add(1)
+		go func() {
+			defer rwg.Done()
+			resFile := filepath.Join(probe.ScratchRoot(), "result-"+l.name+".json")
+			cmd := exec.Command(bins[i], "-tier", c.Tier, "-layout", l.name, "-out", resFile, "-budget", fmt.Sprint(share), "-grid-k", fmt.Sprint(gridK[l.name][c.Tier]),
+				"-shape-n", fmt.Sprint(shapeN[l.name][c.Tier]), "-wrap-depth", fmt.Sprint(wrapDepth[c.Tier]))
+			cmd.Stdout, cmd.Stderr = os.Stderr, os.Stderr
+			if err := cmd.Run(); err != nil {
+				runErrs[i] = fmt.Sprintf("harness for layout %s failed: %v", l.name, err)
+				return
 			}
-		}
-		if share < 5 {
-			share = 5
-		}
-		resFile := filepath.Join(probe.ScratchRoot(), "result-"+l.name+".json")
-		cmd := exec.Command(bins[i], "-tier", c.Tier, "-layout", l.name, "-out", resFile, "-budget", fmt.Sprint(share), "-grid-k", fmt.Sprint(gridK[l.name][c.Tier]),
-			"-shape-n", fmt.Sprint(shapeN[l.name][c.Tier]), "-wrap-depth", fmt.Sprint(wrapDepth[c.Tier]))
-		cmd.Stdout, cmd.Stderr = os.Stderr, os.Stderr
-		if err := cmd.Run(); err != nil {
+			b, err := os.ReadFile(resFile)
+			if err != nil {
+				runErrs[i] = fmt.Sprintf("no result from harness for layout %s: %v", l.name, err)
+				return
+			}
+			var o output
+			if err := json.Unmarshal(b, &o); err != nil {
+				runErrs[i] = fmt.Sprintf("result of layout %s does not parse: %v", l.name, err)
+				return
+			}
+			if len(o.Broken) > 0 {
+				runErrs[i] = fmt.Sprintf("harness (layout %s) reports broken machinery: %s", l.name, o.Broken[0])
+				return
+			}
+			if o.GridSchemas == 0 || (o.ShapesValid == 0 && o.Exhaustive) {
+				runErrs[i] = fmt.Sprintf("harness (layout %s) evaluated nothing", l.name)
+				return
+			}
+			outs[i] = o
+		}()
+	}
+	rwg.Wait()
+	exhaustive := true
+	for i := range layouts {
+		if runErrs[i] != "" {
 			probe.Cleanup()
-			common.Broken("harness for layout %s failed: %v", l.name, err)
+			common.Broken("%s", runErrs[i])
 		}
-		b, err := os.ReadFile(resFile)
-		if err != nil {
-			probe.Cleanup()
-			common.Broken("no result from harness for layout %s: %v", l.name, err)
-		}
-		var o output
-		if err := json.Unmarshal(b, &o); err != nil {
-			probe.Cleanup()
-			common.Broken("result of layout %s does not parse: %v", l.name, err)
-		}
-		if len(o.Broken) > 0 {
-			probe.Cleanup()
-			common.Broken("harness (layout %s) reports broken machinery: %s", l.name, o.Broken[0])
-		}
-		if o.GridSchemas == 0 || (o.ShapesValid == 0 && o.Exhaustive) {
-			probe.Cleanup()
-			common.Broken("harness (layout %s) evaluated nothing", l.name)
-		}
-		outs = append(outs, o)
-		exhaustive = exhaustive && o.Exhaustive
+		exhaustive = exhaustive && outs[i].Exhaustive
 	}
 
 	evaluations, nontrivial := 0, 0
